@@ -692,9 +692,10 @@ private:
           w = H_(TOST(n), TOST(n - 1)) * H_(TOST(n - 1), TOST(n));
         }
 
-        // Wilkinson's original ad hoc shift
+        // Wilkinson's original ad hoc shift (repeated every 40 iterations: a single exceptional
+        // shift does not always leave a fixed point of the double-shift sweep)
 
-        if (iter == 10)
+        if (iter % 40 == 10)
         {
           exshift += x;
           for (int i = low; i <= n; i++)
@@ -706,8 +707,8 @@ private:
           w = -0.4375 * s * s;
         }
 
-        // MATLAB's new ad hoc shift
-        if (iter == 30)
+        // MATLAB's new ad hoc shift (also repeated every 40 iterations)
+        if (iter % 40 == 30)
         {
           s = (y - x) / 2.0;
           s = s * s + w;
